@@ -90,6 +90,17 @@ def monitor_missing_dep_never_fails(run, where, inv, meta, hist, ii, rep):
             run.report_failure(None, "a discovered dependency that disappeared failed the build: %s" % msg[:120], where)
 
 
+def monitor_discovered_never_blocks(run, where, inv, meta, hist, ii, rep):
+    """discovered dependencies never change build order and never block: an invocation in which no command failed must not
+    abort, and must not leave a wanted step undecided"""
+    if inv.result.startswith("panic:"):
+        run.report_failure(None, "the invocation aborted with an internal error: %s" % unhexs(inv.result[6:]).decode("utf-8", "replace")[:160], where)
+        return
+    failed = any(e.startswith("finish_") and e.split("_")[2] != "0" for e in inv.trace)
+    if inv.result == "fail" and not failed:
+        run.report_failure(None, "the invocation reports failure although no command failed: %s" % inv.result[:80], where)
+
+
 def main(tier, seed, replay=None):
     extra = {}
 
@@ -124,5 +135,9 @@ def main(tier, seed, replay=None):
         run.coverage["showincludes_cases"] = n
         run.coverage["showincludes_disagreements"] = bad
 
-    return world_check(PROP, THEOREMS, tier, seed, [monitor_showincludes, monitor_missing_dep_never_fails, monitor_null_build, monitor_one_node_per_location],
-                       replay=replay, note="F10: `-t restat` (adopt) empties the discovered list of the steps it marks up to date")
+    def scen(rng, **kw):
+        # one history in five: a reported dependency that is itself generated, with no declared path to its producer
+        return gen_history_gendep(rng) if rng.random() < 0.2 else gen_history(rng, **kw)
+
+    return world_check(PROP, THEOREMS, tier, seed, [monitor_showincludes, monitor_discovered_never_blocks, monitor_missing_dep_never_fails, monitor_null_build, monitor_one_node_per_location],
+                       replay=replay, scen_gen=scen, note="F10: `-t restat` (adopt) empties the discovered list of the steps it marks up to date")
